@@ -11,11 +11,13 @@ import (
 // Contract model of dario.cat/mergo.Merge (reflection-driven; its own code is
 // not executable). It follows deepMerge of mergo v1.0.1 for the kinds that
 // occur in nfpm.Info, including its aliasing behaviour:
-//   struct with exported fields: field by field; struct without (time.Time): replaced when overwriting
-//   string/int/bool/func: dst = src iff src non-empty and (dst empty or WithOverride)
-//   slice: dst = src (SAME backing array) iff src non-empty and (dst empty or WithOverride)
-//   map: created when dst is nil, then merged key by key into dst's map
-//   pointer: nil src ignored; nil dst takes the SAME pointer; both set: merged into dst's pointee
+//
+//	struct with exported fields: field by field; struct without (time.Time): replaced when overwriting
+//	string/int/bool/func: dst = src iff src non-empty and (dst empty or WithOverride)
+//	slice: dst = src (SAME backing array) iff src non-empty and (dst empty or WithOverride)
+//	map: created when dst is nil, then merged key by key into dst's map
+//	pointer: nil src ignored; nil dst takes the SAME pointer; both set: merged into dst's pointee
+//
 // The only option recognised is WithOverride (by function identity); others are not encodable.
 func init() {
 	reg("dario.cat/mergo.Merge", func(m *Machine, fn *ssa.Function, a []Value) Value {
